@@ -1,4 +1,5 @@
 import ShkModel.Driver.C01
+import ShkModel.Driver.C18
 /-! `shkdrv`: the executable model driver.  One request per line
 (`<property> <op> <tokens…>`), one answer per line.  Imports only core-Lean model and
 spec modules, so that it links. -/
@@ -7,6 +8,7 @@ open Shk.Drv
 def dispatch (line : String) : String :=
   match (line.trimAscii.toString.splitOn " ").filter (· ≠ "") with
   | "C01" :: rest => C01.handle rest
+  | "C18" :: rest => C18.handle rest
   | _ => "bad-op"
 
 partial def loop (h : IO.FS.Stream) (out : IO.FS.Stream) : IO Unit := do
